@@ -22,7 +22,10 @@ T: real MachineController / BMPController objects over a simulated network: the 
 This file contains no oracle: it drives rig, records what was sent and encodes it.
 """
 import contextlib
+import ast
 import inspect
+import sys
+import textwrap
 import json
 import os
 import random
@@ -52,17 +55,26 @@ class Boom(Exception):
 
 # ------------------------------------------------------------------------------------------ introspection
 class MethodInfo(object):
-    def __init__(self, name, wrapper):
-        f = wrapper.__wrapped__
-        spec = inspect.getfullargspec(f)
-        cells = dict(zip(wrapper.__code__.co_freevars, (c.cell_contents for c in wrapper.__closure__)))
+    """One decorated method, described from what is PUBLIC about it: the signature of the function the user wrote
+    (inspect follows functools.wraps' __wrapped__; the class source is parsed when there is no such link) and the
+    keyword-only arguments named in its @use_contextual_arguments(...) line.  Nothing is read from the wrapper's
+    closure or code object, so a rewritten decorator is still understood."""
+
+    def __init__(self, name, wrapper, kwonly, node=None, glob=None):
         self.name = name
-        self.varargs = spec.varargs is not None
-        self.pos = list(spec.args[1:])
-        defaults = list(spec.defaults or ())
+        f = getattr(wrapper, "__wrapped__", None)
+        if f is not None:
+            spec = inspect.getfullargspec(f)
+            args, defaults, varargs = list(spec.args), list(spec.defaults or ()), spec.varargs
+        else:
+            args = [a.arg for a in node.args.args]
+            defaults = [eval(compile(ast.Expression(d), "<default>", "eval"), dict(glob)) for d in node.args.defaults]
+            varargs = node.args.vararg
+        self.varargs = varargs is not None
+        self.pos = args[1:]
         self.has_default = [False] * (len(self.pos) - len(defaults)) + [True] * len(defaults)
         self.defaults = [Required] * (len(self.pos) - len(defaults)) + defaults
-        self.kwonly = list(cells["kw_only_args_defaults"].items())
+        self.kwonly = list(kwonly.items())
 
     @staticmethod
     def enc_default(v):
@@ -81,13 +93,30 @@ class MethodInfo(object):
 
 
 def decorated_methods(cls):
-    """Every function of cls that is a use_contextual_arguments wrapper."""
+    """Every method of cls whose definition carries the @...use_contextual_arguments decorator (found in the source
+    of the classes of the MRO, i.e. by the decorator's public name, not by how its wrapper happens to be built)."""
     out = {}
-    for name, f in inspect.getmembers(cls, inspect.isfunction):
-        code = f.__code__
-        if (os.path.basename(code.co_filename) == "contexts.py" and hasattr(f, "__wrapped__") and
-                "kw_only_args_defaults" in code.co_freevars):
-            out[name] = MethodInfo(name, f)
+    for klass in reversed(cls.__mro__):
+        if klass is object:
+            continue
+        try:
+            tree = ast.parse(textwrap.dedent(inspect.getsource(klass)))
+        except (OSError, TypeError):
+            continue
+        glob = vars(sys.modules[klass.__module__])
+        for node in tree.body[0].body:
+            if not isinstance(node, ast.FunctionDef):
+                continue
+            for d in node.decorator_list:
+                target = d.func if isinstance(d, ast.Call) else d
+                nm = target.attr if isinstance(target, ast.Attribute) else getattr(target, "id", None)
+                if nm != "use_contextual_arguments":
+                    continue
+                kwonly = {}
+                if isinstance(d, ast.Call):
+                    for k in d.keywords:
+                        kwonly[k.arg] = eval(compile(ast.Expression(k.value), "<decorator>", "eval"), dict(glob))
+                out[node.name] = MethodInfo(node.name, inspect.getattr_static(cls, node.name), kwonly, node, glob)
     return out
 
 
